@@ -254,3 +254,25 @@ PROPS["C19"] = {
 }
 _MODS["cli19"] = type("M", (), {"run": staticmethod(cli19.run), "case": staticmethod(cli19.case),
                                 "run_case": staticmethod(cli19.run_case_), "shrink_ops": staticmethod(cli19.shrink_case)})
+
+from . import cli09  # noqa: E402
+
+PROPS["C09"] = {
+    "streams": [{"kind": "cli09", "profile": "cli"}],
+    "runs": {"quick": 32, "thorough": 1500},
+    "rule": "a generated world (EDF/FIFO/LSF/ILP/TetriSched-Gurobi/TetriSched-CPLEX/Clockwork with a fixed "
+            "scheduler runtime; deadline variance, Poisson/Gamma arrivals, conditionals, runtime variance, >=2 resource "
+            "types) is written as YAML/JSON + flagfile and the real `python main.py` runs in three fresh interpreters "
+            "(baseline; another PYTHONHASHSEED; another PYTHONHASHSEED + a launcher that only replaces time.time by a "
+            "skewed jumping clock); traces are compared row by row after masking the measured scheduler duration and "
+            "the output-path flag lines; non-trivial = the baseline trace has rows; distinct = distinct (policy, "
+            "release kinds, format, randomness features present, trace length bucket, #resource types, exit status)",
+    "run": any_run, "case": any_case, "run_case": any_run_case, "shrink": any_shrink,
+    "nontrivial": lambda r: r["stats"].get("rows", 0) > 0,
+    "per_run_timeout": 600,
+    "real": ["main.py + absl flags + data.WorkloadLoader/WorkerLoader + Simulator + every bundled policy, in fresh "
+             "interpreters (untouched code)", "Gurobi / CPLEX with the parameters the policies set themselves"],
+    "stub": ["launcher of the third process replaces time.time (nothing else)"],
+}
+_MODS["cli09"] = type("M", (), {"run": staticmethod(cli09.run), "case": staticmethod(cli09.case),
+                                "run_case": staticmethod(cli09.run_case_), "shrink_ops": staticmethod(cli09.shrink_case)})
